@@ -51,3 +51,7 @@ package party
 // Membership of an identifier in a sorted identifier slice, as a mathematical predicate (abstracts the binary search).
 //@ func (IDSlice).Contains
 //@   summary len(ids) == 1 ==> result == ids_contains(partyIDs, ids[0])
+
+//@ spec fn idsc(Int) Int
+//@ func (ID).Scalar
+//@   summary scval(result) == idsc(id)
